@@ -188,6 +188,8 @@ def ref_logprob_row(sp, squash, lg, log_std, a, u=None):
         x, aa = a, a
     lp = float(np.sum(-((x - lg) ** 2) / (2 * sig * sig) - np.log(sig) - 0.5 * math.log(2 * math.pi)))
     sl = float(sum(E.normal_slack(m, s_, x_) for m, s_, x_ in zip(lg, sig, x)))
+    if squash and u is None:
+        sl += float(sum(E.atanh_slack(m, s_, x_) for m, s_, x_ in zip(lg, sig, x)))
     if squash:
         lp -= float(np.sum(np.log(1.0 - aa * aa + 1e-6)))
         sl += float(np.sum(5e-7 / np.maximum(1.0 - aa * aa + 1e-6, 1e-6)))
@@ -345,6 +347,24 @@ class C16(vlib.Driver):
                                       "B": rng.choice([2, 3, 4]), "seed": rng.randrange(10 ** 6), "logit_mode": "net",
                                       "std_init": rng.choice([0.0, 0.5]), "std_perturb": True,
                                       "mask_kind": rng.choice(["partial", "single"]) if masked else "none", "partial_cfg": False, "prep": [prep]})
+            # extreme but legal standard deviations (e^-25 ... e^5): from the constructor argument and as a "trained" parameter, per-dimension mixes
+            for sp in self.space_grid(rng, tier):
+                if sp["kind"] != "box":
+                    continue
+                for squash in (False, True):
+                    for api, scen, variant in [("actor", "fresh", ""), ("actor", "reeval", ""), ("actor", "stored", "other"), ("ppo", "ppo_get", ""),
+                                               ("ppo", "ppo_eval", "other"), ("ppo", "ppo_learn", "")]:
+                        ext = rng.choice([-25.0, -5.0, 2.5, 5.0])
+                        how = rng.choice(["init", "set", "mix"])
+                        T, Ee = rng.choice([2, 3]), rng.choice([1, 2])
+                        c = {"api": api, "scenario": scen, "variant": variant, "space": sp, "squash": squash, "masked": False,
+                             "B": T * Ee if scen == "ppo_learn" else rng.choice([2, 3, 4]), "T": T, "E": Ee, "seed": rng.randrange(10 ** 6),
+                             "logit_mode": rng.choice(["net", "scaled"]), "std_init": ext if how == "init" else rng.choice([0.0, 0.5]),
+                             "std_perturb": False, "mask_kind": "none", "partial_cfg": False,
+                             "log_std_set": None if how == "init" else ([ext] if how == "set" else rng.sample([-25.0, -5.0, 2.5, 5.0, 0.0], 4))}
+                        if rng.random() < 0.3 and api == "actor":
+                            c["prep"] = [rng.choice(["clone", "add_latent_node", "head_clone"])]
+                        cases.append(c)
             cases.append({"api": "ippo", "scenario": "ippo_get", "variant": "", "space": {"kind": "box", "low": [-1.0, -2.0], "high": [1.0, 2.0]},
                           "squash": True, "masked": False, "B": 3, "T": 2, "E": 1, "seed": rng.randrange(10 ** 6), "logit_mode": "net",
                           "std_init": 0.0, "std_perturb": False, "mask_kind": "none", "partial_cfg": False})
@@ -415,6 +435,11 @@ class C16(vlib.Driver):
                 lin.bias.copy_(torch.as_tensor(vals, dtype=torch.float32))
             if sp["kind"] == "box" and case["std_perturb"]:
                 actor.head_net.log_std.add_(torch.as_tensor(g.normal(0, 0.4, actor.head_net.log_std.shape), dtype=torch.float32))
+        if sp["kind"] == "box" and case.get("log_std_set") is not None:      # a trained / checkpointed log_std far from its initial value
+            with torch.no_grad():
+                v = list(case["log_std_set"])
+                d = actor.head_net.log_std.shape[-1]
+                actor.head_net.log_std.copy_(torch.tensor([(v * d)[:d]], dtype=torch.float32))
         self._prep_info = None
         if case.get("prep"):
             agent, actor = self.apply_prep(case, agent, actor)
@@ -611,6 +636,10 @@ class C16(vlib.Driver):
                 lin.bias.add_(torch.as_tensor(g.normal(0, 2, lin.bias.shape), dtype=torch.float32))
             if case["space"]["kind"] == "box" and case["std_perturb"]:
                 actor.head_net.log_std.add_(torch.as_tensor(g.normal(0, 0.4, actor.head_net.log_std.shape), dtype=torch.float32))
+            if case["space"]["kind"] == "box" and case.get("log_std_set") is not None:
+                v = list(case["log_std_set"])
+                d = actor.head_net.log_std.shape[-1]
+                actor.head_net.log_std.copy_(torch.tensor([(v * d)[:d]], dtype=torch.float32))
 
     def run_ppo_learn(self, case, g):
         """a real rollout with get_action, then the real learn(); evaluate_actions is observed from outside"""
@@ -621,9 +650,12 @@ class C16(vlib.Driver):
         sq = case["squash"] and box
         obs_space = spaces.Box(-1.0, 1.0, (OBS_DIM,), dtype=np.float32)
         nc = {"squash_output": case["squash"], "encoder_config": {"hidden_size": [8]}, "head_config": {"hidden_size": [8]}}
-        agent = PPO(obs_space, gym_space(sp), net_config=nc, action_std_init=case["std_init"], batch_size=n, update_epochs=1,
+        agent = PPO(obs_space, gym_space(sp), net_config=nc, action_std_init=max(case["std_init"], 0.0), batch_size=n, update_epochs=1,
                     share_encoders=bool(case["seed"] % 2))
         actor = agent.actor
+        if case["std_init"] < 0 and box:
+            with torch.no_grad():
+                actor.head_net.log_std.fill_(case["std_init"])
         self.tweak_head(actor, case, g)
         S, A, LP, R, D, V = [], [], [], [], [], []
         rollout_actions = []
@@ -1061,7 +1093,7 @@ class C16(vlib.Driver):
     # ---------- evidence helpers
     def key(self, case):
         k = {x: case.get(x) for x in ("api", "scenario", "variant", "space", "squash", "masked", "B", "logit_mode", "std_init", "mask_kind", "seed", "prep",
-                                      "ids", "okey", "ikey", "obs_kind", "mask_fmt", "latent_dim")}
+                                      "ids", "okey", "ikey", "obs_kind", "mask_fmt", "latent_dim", "log_std_set")}
         return super().key(k)
 
     def nontrivial(self, case, obs):
@@ -1081,6 +1113,9 @@ class C16(vlib.Driver):
         if case.get("ids"):
             labs += [f"obs-key-order={case.get('okey')}", f"infos-key-order={case.get('ikey') if case['masked'] else 'no-infos'}"]
         labs.append(f"obs-kind={case.get('obs_kind', 'vector')}")
+        if sp["kind"] == "box" and obs.get("env", {}).get("log_std"):
+            ls = obs["env"]["log_std"][0]
+            labs.append("log_std-range=" + ("extreme(<-4 or >2)" if (min(ls) < -4 or max(ls) > 2) else "moderate"))
         if case.get("latent_dim"):
             labs.append(f"latent_dim={case['latent_dim']}(bounds 8..128)")
         if len(case.get("prep") or []) >= 3:
